@@ -6,7 +6,7 @@ from ..core import Machinery
 
 OLD, NEW = "v1.2.3-beta", "v1.2.4-beta"
 VP = "vMAJOR.MINOR.PATCH[-TAG]"
-HOSTILE = ["'", '"', "\\", " ", "$HOME", "`id`", "-", "--amend", "\n", "é", "☃", ";", "&&", "|", "#", "%s", "~", "*", "(", ")", "!", "\t", "''", "' --amend '", "$(x)"]
+HOSTILE = ["'", '"', "\\", " ", "$HOME", "`id`", "-", "--amend", "\n", "é", "e\u0301", "\u212b", "☃", ";", "&&", "|", "#", "%s", "~", "*", "(", ")", "!", "\t", "''", "' --amend '", "$(x)"]
 WORDS = ["bump", "version", "release", "to", "from", "OLD", "NEW", "xOLD", "NEWx", "{new_version}", "{old_version}", "{new_version_pep440}", "{old_version_pep440}", "{{", "}}", "v"]
 
 
@@ -27,7 +27,7 @@ def gen_template(rng, cli):
 
 
 def gen_name(rng, i):
-    base = rng.choice(["file", "a b", "it's", 'q"uote', "back\\slash", "$HOME", "`tick`", "-dash", "--amend", "ünï", "semi;colon", "amp&amp", "paren(1)", "hash#1", "per%cent", "til~de", "x' y"])
+    base = rng.choice(["file", "a b", "it's", 'q"uote', "back\\slash", "$HOME", "`tick`", "-dash", "--amend", "ünï", "cafe\u0301", "\u1100\u1161\u11a8", "\u212bngstrom", "semi;colon", "amp&amp", "paren(1)", "hash#1", "per%cent", "til~de", "x' y"])
     return "%s_%d.txt" % (base, i)
 
 
@@ -213,7 +213,7 @@ def run(ctx):
     for e in events:
         ctx.nontriv(e["dbg"])
     ctx.rule = ("seeded runs of the real `update` (commit, tag, push on; fake git, every 4th fake hg) with commit/tag message templates from the config or the command line built from "
-                "hostile symbols (quotes, backslash, $, backticks, leading dashes, newline, non-ASCII), documented placeholders, OLD/NEW shorthand and near-misses, the empty template on the command line over a non-empty configured one, and 1..3 configured "
+                "hostile symbols (quotes, backslash, $, backticks, leading dashes, newline, non-ASCII in composed and decomposed form), documented placeholders, OLD/NEW shorthand and near-misses, the empty template on the command line over a non-empty configured one, and 1..3 configured "
                 "files with hostile names; one `argv` event per mutating VCS command; non-trivial = distinct (command, argv)")
     for e in events[:3]:
         ctx.sample(dict(what=e["dbg"][:300]))
